@@ -139,3 +139,86 @@ def check_range_guard(ck, it, facts, raises, ranges, func, exc_ok=("ValueError",
 def _atoms(f):
     from .terms import subterms
     return set(subterms(f))
+
+
+# ---------------------------------------------------------------------------- reference-spec helpers
+def spec_len(spec, lens=None):
+    """total length in octets of a flat reference spec as a Lin; B items contribute len-symbols
+    (lens: {key: Lin or term} overrides)"""
+    bits = 0
+    lin = Lin({}, 0)
+    for it in spec:
+        if isinstance(it, (F, K, A)):
+            bits += it.width
+        elif isinstance(it, B):
+            if lens and it.key in lens:
+                v = lens[it.key]
+                lin = lin + (v if isinstance(v, Lin) else linearize(v))
+            else:
+                lin = lin + Lin({length(sym(it.key, ty="bytes")): 1})
+        elif isinstance(it, CRC):
+            bits += 16
+        elif isinstance(it, list):
+            lin = lin + spec_len(it, lens)
+        else:
+            raise ValueError(f"spec_len of {it!r}")
+    if bits % 8:
+        raise ValueError("reference spec is not octet aligned")
+    return lin + Lin({}, bits // 8)
+
+
+def len_atom(width, lin: Lin):
+    """an A() cell for an arithmetic length field whose value must equal `lin`"""
+    return A(width, repr(lin))
+
+
+# ---------------------------------------------------------------------------- slices of the input
+def check_slice_extent(ck, term, root, lo: Lin, hi: Lin, func, what, rule="W-UNPACK"):
+    """term must be exactly root[lo:hi]"""
+    from .bits import buffer_pos
+    t = term
+    while t.k == "bcat" and len(t.a[0]) == 1 and t.a[0][0].k == "bytes":
+        t = t.a[0][0].a[0]
+    if t.k != "slice":
+        ck.refuted(rule, func, what, f"decoded value is {show(term)[:120]}, not a slice of {root}")
+        return False
+    p = buffer_pos(t, Lin({}, 0))
+    if p is None or p[0].a[0] != root:
+        ck.refuted(rule, func, what, f"decoded value {show(term)[:120]} is not a slice of {root}")
+        return False
+    got_lo = p[1]
+    if is_const(t.a[2], None):
+        ck.refuted(rule, func, what, f"decoded value {show(term)[:120]} runs to the end of the buffer; reference end {hi!r}")
+        return False
+    q = buffer_pos(T("slice", t.a[0], t.a[2], NONE), Lin({}, 0))
+    got_hi = q[1]
+    # inner closed slices must not cut the extent short: only single-level or open inner slices accepted
+    inner = t.a[0]
+    while inner.k == "slice":
+        if not is_const(inner.a[2], None):
+            ck.unknown(rule, func, what, f"nested closed slice {show(term)[:100]}")
+            return False
+        inner = inner.a[0]
+    probs = []
+    if got_lo.key() != lo.key():
+        probs.append(f"starts at {got_lo!r}, reference {lo!r}")
+    if got_hi.key() != hi.key():
+        probs.append(f"ends at {got_hi!r}, reference {hi!r}")
+    if probs:
+        ck.refuted(rule, func, what, f"{show(term)[:100]}: " + "; ".join(probs))
+        return False
+    ck.proved(rule, func, what, f"{show(term)[:100]} = {root}[{lo!r} : {hi!r}]")
+    return True
+
+
+# ---------------------------------------------------------------------------- equality sensitivity
+def check_eq_sensitive(ck, eq_term, syms_a, syms_b, func, what="__eq__ depends on every listed field of both operands", rule="Q-EQ"):
+    """the term of `a == b` must mention every field symbol of a and of b"""
+    from .terms import free_syms
+    fs = free_syms(eq_term)
+    missing = [s for s in list(syms_a) + list(syms_b) if s not in fs]
+    if missing:
+        ck.refuted(rule, func, what, f"equality {show(eq_term)[:160]} ignores {missing[:6]}")
+        return False
+    ck.proved(rule, func, what, f"{len(fs)} field symbols compared")
+    return True
